@@ -10,10 +10,14 @@ into the ``xml.etree`` element the converter takes.  ``analyse`` is the oracle's
   tests/README do not define the rendering of this tree (``unclaimed``),
 * the feature set: risky features, literal braces, malformed radicals (operand = lone opening bracket).
 
+A run's text is the text of its m:t or w:t child, whether the run is an m:r or a w:r placed in the math zone
+(``R(..., w=)``); the converter documents "both w:t and m:t", the property speaks of "every run's text".
+
 Documented forms (sharepoint2text/tests/test_omml_to_latex.py, module docstring of omml_to_latex.py):
   f -> \\frac{num}{den}; sSup -> base^{sup}; sSub -> base_{sub}; sSubSup -> base_{sub}^{sup};
   rad -> \\sqrt{e} / \\sqrt[deg]{e}; nary -> \\sum|\\prod|\\int|\\iint|\\iiint[_{sub}][^{sup}] e (empty limit omitted);
-  d -> beg e1, e2, ... end (default parentheses); m -> \\begin{matrix}a & b \\\\ c & d\\end{matrix};
+  d -> beg e1, e2, ... end (default parentheses when m:begChr/m:endChr or its m:val is absent; a present, empty
+  m:val="" is the value "": nothing on that side); m -> \\begin{matrix}a & b \\\\ c & d\\end{matrix};
   func -> \\sin{e} for sin cos tan log ln lim exp max min, other names verbatim; bar -> \\overline{e};
   acc -> \\hat \\tilde \\bar \\vec \\dot by m:chr, \\hat for an unknown accent character.
 """
@@ -100,9 +104,14 @@ class Tokens:
         return t
 
 
-def R(text: str, p: int = 0, sp: int = 0) -> dict:
-    """run; p: 0 no properties, 1 m:rPr, 2 w:rPr, 3 both; sp: xml:space=preserve on m:t"""
-    return {"k": "r", "t": text, "p": p, "sp": sp}
+def R(text: str, p: int = 0, sp: int = 0, w: int = 0) -> dict:
+    """run; p: 0 no properties, 1 m:rPr, 2 w:rPr, 3 both; sp: xml:space=preserve on the text element;
+    w: which element carries the text — 0 ``<m:r><m:t>``, 1 ``<m:r><w:t>`` (CT_R of shared-math admits the
+    WordprocessingML run content next to m:t), 2 ``<w:r><w:t>`` (a normal-text run inside the math zone)."""
+    d = {"k": "r", "t": text, "p": p, "sp": sp}
+    if w:
+        d["w"] = w
+    return d
 
 
 def N(kind: str, opts: dict | None = None, slots: list | None = None, rows: list | None = None) -> dict:
@@ -160,6 +169,12 @@ def _node(n: dict) -> str:
         if n.get("p", 0) & 2:
             pr += '<w:rPr><w:rFonts w:ascii="Cambria Math" w:hAnsi="Cambria Math"/><w:i/><w:color w:val="00B050"/></w:rPr>'
         sp = ' xml:space="preserve"' if n.get("sp") else ""
+        w = n.get("w", 0)
+        if w == 1:
+            return f"<m:r>{pr}<w:t{sp}>{escape(n['t'])}</w:t></m:r>"
+        if w == 2:
+            wpr = '<w:rPr><w:rFonts w:ascii="Cambria Math" w:hAnsi="Cambria Math"/><w:i/></w:rPr>' if n.get("p", 0) else ""
+            return f"<w:r>{wpr}<w:t{sp}>{escape(n['t'])}</w:t></w:r>"
         return f"<m:r>{pr}<m:t{sp}>{escape(n['t'])}</m:t></m:r>"
     o = n["o"]
     ip = o.get("ip", 0)
@@ -290,6 +305,8 @@ def _render1(n: dict, a: Analysis, nd: bool, collect: bool) -> str:
                 a.runs.append(map_text(t))
             if n.get("p"):
                 a.features.add("run-with-rPr")
+            if n.get("w"):
+                a.features.add("run:text-in-" + ("w:t-of-m:r" if n["w"] == 1 else "w:r"))
             sy = [c for c in t if c in SYMBOLS]
             if sy:
                 a.features.add("mapped-symbol")
@@ -362,8 +379,8 @@ def _render1(n: dict, a: Analysis, nd: bool, collect: bool) -> str:
     if k == "d":
         beg, end = o.get("beg"), o.get("end")
         if collect:
-            a.features.add("d:beg=" + ("none" if beg is None else "noval" if beg == NOVAL else "val"))
-            a.features.add("d:end=" + ("none" if end is None else "noval" if end == NOVAL else "val"))
+            a.features.add("d:beg=" + ("none" if beg is None else "noval" if beg == NOVAL else "empty" if beg == "" else "val"))
+            a.features.add("d:end=" + ("none" if end is None else "noval" if end == NOVAL else "empty" if end == "" else "val"))
             a.features.add(f"d:e={len(by.get('e', []))}")
             if NOVAL in (beg, end):
                 a.risky.add("d-delimiter-chr-without-val")
@@ -371,7 +388,9 @@ def _render1(n: dict, a: Analysis, nd: bool, collect: bool) -> str:
                 if v not in (None, NOVAL):
                     if "{" in v or "}" in v:
                         a.literal_brace = True
-            if (beg not in (None, NOVAL) and beg not in DOC_BEG) or (end not in (None, NOVAL) and end not in DOC_END):
+            # m:val="" (one-sided / invisible delimiter) is an instance of the documented form "beg e1, e2 end" with
+            # the value the source gives: there is no character whose LaTeX spelling could be in question
+            if (beg not in (None, NOVAL, "") and beg not in DOC_BEG) or (end not in (None, NOVAL, "") and end not in DOC_END):
                 a.unclaimed.add("d:delimiter-character-not-documented")
             if o.get("sep") is not None and len(by.get("e", [])) > 1:
                 a.unclaimed.add("d:sepChr-not-documented")
@@ -506,10 +525,12 @@ def twin(spec: dict, feature: str, tok: Tokens) -> dict:
         for n in walk(t["c"]):
             if n["k"] == "rad":
                 e = [ch for name, ch in n["s"] if name == "e"][0]
-                if len(e) == 1 and e[0]["k"] == "r" and e[0]["t"].strip() in ("(", "[", "{"):
+                # "operand = lone opening bracket" is a statement about the operand's rendering: a single run "(" is
+                # the usual spelling, an m:d with begChr "(" and an empty endChr around nothing is another one
+                if _render(e, Analysis(), True, False).strip() in ("(", "[", "{"):
                     seen += 1
                     if seen > 1:
-                        e[0]["t"] = tok()
+                        e[:] = [R(tok())]
     elif feature == "malformed-radical-under-rad-with-closing-bracket-in-degree":
         for n in walk(t["c"]):
             if n["k"] == "rad":
@@ -555,8 +576,8 @@ def variants(kind: str, full: bool = True):
                             o.update(limLoc=1, hide=1, ctrl=1)
                         yield o, ([] if sub == "absent" else ["sub"]) + ([] if sup == "absent" else ["sup"]) + ["e"]
     elif kind == "d":
-        begs = (None, NOVAL, "(", "[", "{", "|")
-        ends = (None, NOVAL, ")", "]", "}", "|")
+        begs = (None, NOVAL, "", "(", "[", "{", "|")       # absent / present without m:val / present and empty / documented characters
+        ends = (None, NOVAL, "", ")", "]", "}", "|")
         for ne in (1, 2):
             yield {"pr": 0, "beg": None, "end": None}, ["e"] * ne
             for b in begs:
@@ -564,7 +585,6 @@ def variants(kind: str, full: bool = True):
                     yield {"pr": 1, "beg": b, "end": e, "ctrl": 1 if (b is None) == (e is None) else 0}, ["e"] * ne
         yield {"pr": 1, "beg": "(", "end": ")", "sep": "|"}, ["e", "e"]
         yield {"pr": 1, "beg": "⟨", "end": "⟩"}, ["e"]
-        yield {"pr": 1, "beg": "", "end": ""}, ["e"]
         yield {"pr": 1, "beg": "(", "end": ")"}, ["e", "e", "e"]
     elif kind == "m":
         for pr in (0, 1):
@@ -645,6 +665,8 @@ class Filler:
             t = next(self._sym) + t
         elif style == 3:
             t = "(" + t + "+" + next(self._sym) + ")"
+        elif style in (4, 5):        # text carried by a WordprocessingML element (see R)
+            return R(t, p=style % 2 * 2, w=style - 3)
         return R(t, p=style % 4 if style else 0)
 
 
@@ -700,7 +722,7 @@ def random_operand(rng, tok, depth: int, width: int, risky: str | None, braces: 
     out = []
     for _ in range(n):
         if depth <= 0 or rng.random() < 0.35:
-            out.append(R(random_text(rng, tok, braces), p=rng.choice((0, 0, 1, 2, 3)), sp=rng.choice((0, 0, 1))))
+            out.append(R(random_text(rng, tok, braces), p=rng.choice((0, 0, 1, 2, 3)), sp=rng.choice((0, 0, 1)), w=rng.choice(_W_MIX)))
         else:
             out.append(random_node(rng, tok, depth, width, risky, braces))
     return out
@@ -723,6 +745,7 @@ def random_node(rng, tok, depth: int, width: int, risky: str | None = None, brac
 
 
 _CLEANV: dict = {}
+_W_MIX = (0, 0, 0, 0, 0, 0, 1, 2)      # which element carries a random run's text (see R)
 
 
 def _clean_variant(kind: str, o: dict) -> bool:
@@ -733,7 +756,7 @@ def random_tree(rng, tok, depth: int, width: int = 3, braces: bool = False) -> d
     top = []
     for _ in range(rng.choice((1, 1, 2, 3))):
         if rng.random() < 0.25:
-            top.append(R(random_text(rng, tok, braces), p=rng.choice((0, 1, 2, 3))))
+            top.append(R(random_text(rng, tok, braces), p=rng.choice((0, 1, 2, 3)), w=rng.choice(_W_MIX)))
         else:
             top.append(random_node(rng, tok, depth, width, None, braces))
     return root(top, para=rng.choice((0, 0, 0, 1, 2)))
